@@ -692,7 +692,7 @@ class C02(Prop):
     props_file = "Props/C02.v"
     preamble = ("From Coq Require Import List ZArith QArith Qcanon Bool.\nImport ListNotations.\n"
                 "From PP Require Import Model.C02.\n")
-    n_cases = (300, 5000)
+    n_cases = (220, 5000)
     design_ref = "DESIGN.md §5 C02, §6, §6.1, Appendix B (AdParser._evaluate_single, AdArray)"
     level_text = (
         "Coq theorems over an executable transcription (canonical rationals) of AdParser.evaluate / "
